@@ -1,9 +1,12 @@
 (* Classification of known findings for C16 (used only by harness/props/c16.py finding_key):
-   the same Spec oracle as Tie/C16.v, tolerating exactly one recorded deviation at a time.
-     check_model here = "the case satisfies the Spec if F9-shaped steps may emit one event"
-     check_spec  here = "the case satisfies the Spec if F11-shaped steps may emit one Registered"
-   A case whose only discrepancies are of one recorded shape passes the corresponding check. *)
+   the same Spec oracle as Tie/C16.v, tolerating exactly ONE recorded deviation, named by the
+   number paired with the case: 9 = F9 (several subscription / handler registrations removed, one
+   event), 11 = F11 (registerAdapter over a live key emits only Registered), 13 = F13
+   (getAllUtilitiesRegisteredFor hands out an unregistered object equal to a live utility).
+   A case whose only discrepancies are of that one shape passes [check_spec]. *)
+From Coq Require Import Arith.
 From ZI Require Export Tie.C16.
-Definition case_t := Tie.C16.case_t.
-Definition check_model (c : case_t) : bool := check_spec_tol true false c.
-Definition check_spec (c : case_t) : bool := check_spec_tol false true c.
+Definition case_t := (nat * Tie.C16.case_t)%type.
+Definition check_model (c : case_t) : bool := true.
+Definition check_spec (c : case_t) : bool :=
+  check_spec_tol (Nat.eqb (fst c) 9) (Nat.eqb (fst c) 11) (Nat.eqb (fst c) 13) (snd c).
